@@ -18,3 +18,20 @@ Definition c_setter_pol : Qc := Q2Qc mu0_setter_polarization.
 (* every value bound to the name mu_0 / MU0 and every bare use of it equals the exported constant *)
 Definition all_sites_exported (l : list (String.string * Q)) : bool :=
   forallb (fun sq => Qeq_bool (snd sq) mu0_exported) l.
+
+(* statement order of the setters (the two setter_paths tables of Gen.GenConst): on every execution path each of the two attributes is
+   written exactly once and nothing that can raise sits between the two writes -- so an assignment is atomic for the pair
+   even when a validation or a warning (escalated to an error) raises: the two-field update of exc_step is justified *)
+Fixpoint path_atomic (writes : nat) (seen_own seen_other : bool) (p : list String.string) : bool :=
+  match p with
+  | nil => Nat.eqb writes 2 && seen_own && seen_other
+  | t :: p' =>
+    if String.eqb t "raise"%string then negb (Nat.eqb writes 1) && path_atomic writes seen_own seen_other p'
+    else if String.eqb t "own"%string then negb seen_own && path_atomic (S writes) true seen_other p'
+    else if String.eqb t "other"%string then negb seen_other && path_atomic (S writes) seen_own true p'
+    else false
+  end.
+Definition setters_atomic : bool :=
+  forallb (path_atomic 0 false false) setter_paths_magnetization &&
+  forallb (path_atomic 0 false false) setter_paths_polarization &&
+  negb (Nat.eqb (length setter_paths_magnetization) 0) && negb (Nat.eqb (length setter_paths_polarization) 0).
